@@ -799,7 +799,7 @@ func (p *c08) Run(c *verifsim.Chooser, st *Stats, render bool) *Outcome {
 			st.probe("excluded:prints-a-value-with-2^40-paths")
 			return o
 		}
-		currentDesc.Store("object-table " + ob.name)
+		setDesc("object-table " + ob.name)
 		sample["mode"], sample["script"], sample["object"], sample["front_end"] = "odd-object table", text, ob.name, []string{"Execute", "Run"}[api]
 		o.Digest.Str(text + ob.name)
 		ev := p.newEval(text, "")
@@ -828,7 +828,7 @@ func (p *c08) Run(c *verifsim.Chooser, st *Stats, render bool) *Outcome {
 		fault := c08HostFaults[c.Intn(len(c08HostFaults))]
 		api := c.Intn(2)
 		opt := c.Intn(2) == 0
-		currentDesc.Store("host-fault " + fault)
+		setDesc("host-fault " + fault)
 		sample["mode"], sample["script"], sample["host_fault"], sample["front_end"] = "host-function fault table", text, fault, []string{"Execute", "Run"}[api]
 		o.Digest.Str(text + fault)
 		ev := p.newEval(text, fault)
@@ -850,7 +850,7 @@ func (p *c08) Run(c *verifsim.Chooser, st *Stats, render bool) *Outcome {
 		text := c08Recursion[c.Intn(len(c08Recursion))]
 		api := c.Intn(2)
 		opt := c.Intn(2) == 0
-		currentDesc.Store("recursion")
+		setDesc("recursion")
 		sample["mode"], sample["script"] = "recursion", text
 		o.Digest.Str(text)
 		ev := p.newEval(text, "")
@@ -885,7 +885,7 @@ func (p *c08) Run(c *verifsim.Chooser, st *Stats, render bool) *Outcome {
 		if fn == "print" || fn == "printf" || fn == "panic" {
 			text = fmt.Sprintf("%s(%s); return 1;", fn, args)
 		}
-		currentDesc.Store("builtin " + fn)
+		setDesc("builtin " + fn)
 		sample["mode"], sample["script"] = "built-in with odd arguments", text
 		o.Digest.Str("builtin" + text)
 		o.Nontrivial = true
@@ -894,7 +894,7 @@ func (p *c08) Run(c *verifsim.Chooser, st *Stats, render bool) *Outcome {
 	case 13: // valid scripts made of unusual material: prepare, dump, run twice, dump
 		text := c08Unusual[c.Intn(len(c08Unusual))]
 		opt := c.Intn(2) == 0
-		currentDesc.Store("unusual material")
+		setDesc("unusual material")
 		sample["mode"], sample["script"] = "valid script of unusual material", text
 		o.Digest.Str("unusual" + text)
 		o.Nontrivial = true
@@ -928,7 +928,7 @@ func (p *c08) Run(c *verifsim.Chooser, st *Stats, render bool) *Outcome {
 			args[i] = atom
 		}
 		text := fmt.Sprintf(cont, args...)
-		currentDesc.Store("repeated malformed fragment")
+		setDesc("repeated malformed fragment")
 		sample["mode"], sample["script"] = "repeated malformed fragment", text
 		o.Digest.Str("rep" + text)
 		o.Nontrivial = true
@@ -938,7 +938,7 @@ func (p *c08) Run(c *verifsim.Chooser, st *Stats, render bool) *Outcome {
 		b := c08Bulk[c.Intn(len(c08Bulk))]
 		opt := c.Intn(2) == 0
 		api := c.Intn(2)
-		currentDesc.Store("bulk " + b.name)
+		setDesc("bulk " + b.name)
 		sample["mode"], sample["script"] = "bulk: "+b.name, b.text
 		o.Digest.Str("bulk" + b.text)
 		o.Nontrivial = true
@@ -975,7 +975,7 @@ func (p *c08) Run(c *verifsim.Chooser, st *Stats, render bool) *Outcome {
 		if term {
 			text += "\";"
 		}
-		currentDesc.Store(fmt.Sprintf("string escape \\%q +%d", ch, k))
+		setDesc(fmt.Sprintf("string escape \\%q +%d", ch, k))
 		sample["mode"], sample["script"] = "string escape", text
 		o.Digest.Str("esc" + text)
 		o.Nontrivial = true
@@ -988,7 +988,7 @@ func (p *c08) Run(c *verifsim.Chooser, st *Stats, render bool) *Outcome {
 		if c.Intn(3) == 1 {
 			text += "\n"
 		}
-		currentDesc.Store("lexer edge")
+		setDesc("lexer edge")
 		sample["mode"], sample["script"] = "lexer/parser edge", text
 		o.Digest.Str("edge" + text)
 		o.Nontrivial = true
@@ -1000,7 +1000,7 @@ func (p *c08) Run(c *verifsim.Chooser, st *Stats, render bool) *Outcome {
 		b := c08ConstVals[c.Intn(len(c08ConstVals))]
 		text := fmt.Sprintf(c08ConstShapes[c.Intn(len(c08ConstShapes))], a, op, b)
 		opt := c.Intn(2) == 0
-		currentDesc.Store("constant expression " + text)
+		setDesc("constant expression " + text)
 		sample["mode"], sample["script"], sample["optimizer"] = "constant expression", text, opt
 		o.Digest.Str(text)
 		ev := p.newEval(text, "")
@@ -1025,7 +1025,7 @@ func (p *c08) Run(c *verifsim.Chooser, st *Stats, render bool) *Outcome {
 			n = 1 + n%3000 // random cases stay moderate; the table has the deep end
 		}
 		text := fmt.Sprintf(c08RuntimeNest[si], n)
-		currentDesc.Store(fmt.Sprintf("runtime nesting %d depth %d", si, n))
+		setDesc(fmt.Sprintf("runtime nesting %d depth %d", si, n))
 		sample["mode"], sample["script"] = "runtime nesting", text
 		o.Digest.Str(text)
 		ev := p.newEval(text, "")
@@ -1060,7 +1060,7 @@ func (p *c08) Run(c *verifsim.Chooser, st *Stats, render bool) *Outcome {
 			depth = 1 + depth%3000 // mostly moderate depths; the table covers the deep end
 		}
 		text := nested(kind, depth)
-		currentDesc.Store(fmt.Sprintf("nesting kind %d depth %d", kind, depth))
+		setDesc(fmt.Sprintf("nesting kind %d depth %d", kind, depth))
 		sample["mode"], sample["script"], sample["depth"] = "deep nesting", text, depth
 		o.Digest.Str(fmt.Sprintf("nest %d %d", kind, depth))
 		ev := p.newEval(text, "")
@@ -1087,7 +1087,7 @@ func (p *c08) Run(c *verifsim.Chooser, st *Stats, render bool) *Outcome {
 			base = GenScript(c, GenCfg{Funcs: true, Faults: true, Hashes: true, Prints: true}).Text
 		}
 		text, kinds := p.mutate(c, base)
-		currentDesc.Store("hostile text " + kinds)
+		setDesc("hostile text " + kinds)
 		sample["mode"], sample["script"], sample["mutations"] = "hostile text", text, kinds
 		o.Digest.Str(text)
 		ev := p.newEval(text, "")
@@ -1125,7 +1125,7 @@ func (p *c08) Run(c *verifsim.Chooser, st *Stats, render bool) *Outcome {
 	default: // generated script, fault history
 		sc := GenScript(c, GenCfg{Funcs: true, Faults: true, Hashes: true, Prints: true})
 		opt := c.Intn(2) == 0
-		currentDesc.Store("fault history")
+		setDesc("fault history")
 		sample["mode"], sample["script"] = "fault history", sc.Text
 		o.Digest.Str(sc.Text)
 		ev := p.newEval(sc.Text, "")
